@@ -3,6 +3,7 @@ import contextlib
 
 from hypothesis import strategies as st
 
+from ..doubles import forwarding
 from ..runner import Shard, Violation
 from ..driver import Ctx, Scheduler, Cancel, all_schedules
 from .. import env
@@ -43,7 +44,7 @@ def configs(draw, tier):
     cancel = draw(st.one_of(st.none(), st.none(), st.tuples(st.integers(0, ntasks - 1), st.integers(1, 6))))
     # "class-aw": a class-based manager whose instances are ALSO awaitable (pool.acquire() style objects usable
     # with ``await`` and with ``async with``): decorating with it means entering it
-    return {"kind": draw(st.sampled_from(["gen", "gen", "class", "class-aw"])), "suppress": draw(st.booleans()),
+    return {"kind": draw(st.sampled_from(["gen", "gen", "class", "class-aw", "class-recreate"])), "suppress": draw(st.booleans()),
             "enter_susp": draw(st.integers(0, 1)), "exit_susp": draw(st.integers(0, 1)),
             "body_susp": draw(st.integers(0, 2)), "tasks": tasks,
             "cancel": list(cancel) if cancel else None,
@@ -58,6 +59,8 @@ def configs(draw, tier):
             # what is decorated: an async def, or a plain def that does part of its work when CALLED and returns a
             # coroutine for the rest (both are "coroutine functions" to their callers)
             "fn_flavour": draw(st.sampled_from(["async", "async", "def-coro"])),
+            # (kind gen) the generator function returns a complete, but not a native, asynchronous generator
+            "gen_wrap": draw(st.sampled_from([False, False, True])),
             "choices": draw(st.lists(st.integers(0, 3), max_size=40))}
 
 
@@ -120,9 +123,34 @@ def run_config(case, impl, choices=None, default="rr"):
             return self
             yield  # pragma: no cover
 
+    class RecreatingManager(ClassManager):
+        """NOT re-entrant, and says so through the documented hook: ``_recreate_cm`` hands out the instance itself
+        while it is idle and a fresh sibling while it is in use - it has to be asked for EVERY call"""
+
+        def __init__(self):
+            self.busy = False
+
+        def _recreate_cm(self):
+            return self if not self.busy else type(self)()
+
+        async def __aenter__(self):
+            if self.busy:
+                note("instance-entered-while-in-use", "class")
+            self.busy = True
+            return await super().__aenter__()
+
+        async def __aexit__(self, et, ev, tb):
+            try:
+                return await super().__aexit__(et, ev, tb)
+            finally:
+                self.busy = False
+
     if case["kind"] == "gen":
-        maker = (a.contextmanager if impl == "a" else contextlib.asynccontextmanager)(gen_manager)
+        maker = (a.contextmanager if impl == "a" else contextlib.asynccontextmanager)(
+            forwarding(gen_manager) if case.get("gen_wrap") else gen_manager)
         deco = maker("tag")
+    elif case["kind"] == "class-recreate":
+        deco = RecreatingManager()
     elif case["kind"] == "class-aw":
         deco = AwaitableManager()
     else:
@@ -171,7 +199,7 @@ def run_config(case, impl, choices=None, default="rr"):
 
     async def task(i):
         name = f"t{i}"
-        if case.get("enter_first") and i == 0:
+        if case.get("enter_first") and i == 0 and case["kind"] != "class-recreate":  # (entering it directly is the caller's business)
             current[name] = "direct"
             await enter_directly()
         for c, outcome in enumerate(case["tasks"][i]):
@@ -216,6 +244,8 @@ def invariants(case, r):
             return ("task-raised", f"{t.name}: {value!r}")
     per_call = {}
     for t, c, event, extra in r["log"]:
+        if event == "instance-entered-while-in-use":
+            return ("recreate-hook-not-asked-for-every-call", f"{(t, c)}: an instance in use was entered again")
         per_call.setdefault((t, c), []).append((event, extra))
     seen_gens = set()
     for key, result in r["results"].items():
